@@ -481,13 +481,16 @@ def _check_float_to_int(r, f):
                loc=f.loc(tries[0]), extra={'props': ['C11', 'C20']})
     else:
         r.ok(f'{f.key} handler')
-    rets = [n for hd in h for n in ast.walk(hd) if isinstance(n, ast.Return)]
     good = False
-    for rt in rets:
-        v = rt.value
-        if isinstance(v, ast.IfExp) and isinstance(v.test, ast.Compare) and isinstance(v.test.ops[0], (ast.Gt, ast.GtE)) \
-                and ast.unparse(v.test.left) == 'f' and fold(v.test.comparators[0]) == 0 \
-                and ast.unparse(v.body) == 'self.pos_clamp_value' and ast.unparse(v.orelse) == 'self.neg_clamp_value':
+    for hd in h:
+        cv = G.cond_values(hd.body) or []
+        pos = [t for t, v in cv if ast.unparse(v) == 'self.pos_clamp_value']
+        neg = [t for t, v in cv if ast.unparse(v) == 'self.neg_clamp_value']
+
+        def is_pos_test(t):
+            return isinstance(t, ast.Compare) and len(t.ops) == 1 and isinstance(t.ops[0], (ast.Gt, ast.GtE)) and ast.unparse(t.left) == 'f' \
+                and fold(t.comparators[0]) == 0
+        if len(pos) == 1 and len(neg) == 1 and is_pos_test(pos[0]) and isinstance(neg[0], tuple) and neg[0][0] == 'not' and is_pos_test(neg[0][1]):
             good = True
     if not good:
         raise AnalysisError(f'{f.key}: overflow handler result not recognised (needs a human)')
